@@ -121,6 +121,12 @@ def run(res, tier):
                 continue
             evals += 1
             dist[f'{name}/{mode}'] = dist.get(f'{name}/{mode}', 0) + 1
+            if cid % 3 == 1:
+                # the documented read-only helpers (plots, frequency response, predict) are called first: what is
+                # published must still be consistent afterwards
+                from .. import readonly
+                readonly.exercise(reg, X if epflag else None)
+                dist['after_read_only_helpers'] = dist.get('after_read_only_helpers', 0) + 1
             info = check_fit(reg, X, ns, nu, name)
             if info:
                 bad.append(dict(info, regressor=desc, n_states=ns, n_inputs=nu, X=X.tolist()))
